@@ -35,7 +35,7 @@ LINK_KEYS = ['flowrate', 'velocity', 'status', 'setting']
 
 
 # appended to RULE in the evidence (vlib/runner.py)
-RULE_ADDENDUM = 'Added in rounds 4-5: options.hydraulic.unbalanced = CONTINUE in 40 % of the cases; report steps larger than and not a multiple of the hydraulic step in 15 % of the numeric-report cases.'
+RULE_ADDENDUM = "Added in rounds 4-5: options.hydraulic.unbalanced = CONTINUE in 40 % of the cases; report steps larger than and not a multiple of the hydraulic step in 15 % of the numeric-report cases. Round 6: half of the cases also run with the solver's TIME_LIMIT ~ 0 s; any solve that does not return 'converged' must stop the run and be reported."
 
 def n_cases(tier):
     return base_cases(tier) + len(suite.files(tier))     # + the repository's own tests under the monitor (vlib/props/suite.py)
